@@ -625,6 +625,34 @@ def pd_fresh(prog: Program) -> RuleResult:
     return r
 
 
+# --------------------------------------------------------------------------------------- MC-EQ
+def mc_eq(prog: Program) -> RuleResult:
+    """The monitored containers are lists / sets: two of them are equal iff their elements are.  `value in container`, the
+    owners' dataclass __eq__ and the skip-if-present test of the write-back all go through this comparison."""
+    r = RuleResult("MC-EQ", "monitored containers compare by their elements", floor=2)
+    mc = prog.cls(MC)
+    for c in [c for c in prog.subclasses(mc.qual, strict=True) if _builtin_base(prog, c)]:
+        kind = _builtin_base(prog, c)
+        bad = None
+        for q in c.mro:
+            if q == f"ext:builtins.{kind}":
+                break
+            k = prog.classes.get(q)
+            if k is None:
+                continue
+            if "__eq__" in k.methods:
+                f = k.methods["__eq__"]
+                if not any(is_super_call(cc, "__eq__") or (isinstance(cc.func, ast.Attribute) and src(cc.func) in (f"{kind}.__eq__",)) for cc in calls_in(f.node)):
+                    bad = bad or (k, f"{k.name}.__eq__ is defined and does not defer to {kind}.__eq__")
+            elif k.is_dataclass and k.decorator_kw("dataclass", "eq") is not False:
+                own_fields = [n for n, fi in k.attrs.items() if not fi.is_classvar]
+                bad = bad or (k, f"@dataclass on {k.name} generates __eq__ over its fields ({own_fields or 'none: any two instances are equal'}), which shadows {kind}.__eq__")
+        r.check(bad is None, f"{c.name}#element-wise-equality", bad[0].loc if bad else c.loc, "", f"{kind}.__eq__ is what == resolves to",
+                (bad[1] if bad else "") + ": containers with different elements compare equal, so owners that differ only in a managed field are equal, `owner in other_field` "
+                "finds the wrong owner and the write-back of an inferred value is skipped - field and graph disagree")
+    return r
+
+
 def run(prog: Program, tier: str) -> List[RuleResult]:
     alias = pd_alias(prog)
-    return [mc_cover(prog), mc_hook(prog), alias, pd_aug(prog, not alias.failed), pd_seq(prog), pd_single(prog), mc_once(prog), pd_fresh(prog), user_truth(prog, ["property_descriptor.property_descriptor", "property_descriptor.monitored_container", "property_descriptor.property_descriptor_relation"], 2)]
+    return [mc_cover(prog), mc_hook(prog), alias, pd_aug(prog, not alias.failed), pd_seq(prog), pd_single(prog), mc_once(prog), pd_fresh(prog), mc_eq(prog), user_truth(prog, ["property_descriptor.property_descriptor", "property_descriptor.monitored_container", "property_descriptor.property_descriptor_relation"], 2)]
